@@ -77,3 +77,14 @@ package keeper
 //@   flag pure=GetValidatorAccumulatedCommissionKey
 //@   flag noframe
 //@   before[C17.svac.key] KVStore.Set requires defined(res_GetValidatorAccumulatedCommissionKey_0) && arg0 == res_GetValidatorAccumulatedCommissionKey_0
+
+// C17 (everything collected in an epoch is distributed at its end, whatever the voting power was): at the end of every
+// epoch of the module's identifier the allocation runs, with the previous total power as read from the staking keeper
+// - also when that power is zero, which is the case AllocateTokens books to the community pool.
+//@ func (EpochsHooksWrapper).AfterEpochEnd
+//@   requires wrapper.keeper != nil
+//@   flag noframe
+//@   flag pure=GetParams,GetLastTotalPower,Logger,Info,Error,Int64
+//@   flag havoc=AllocateTokens
+//@   ensures[C17.aee.every] defined(res_GetParams_0) && (epochIdentifier == res_GetParams_0.EpochIdentifier ==> defined(res_AllocateTokens_0))
+//@   before[C17.aee.power]  AllocateTokens requires arg_totalPreviousPower == res_Int64_0 && epochIdentifier == res_GetParams_0.EpochIdentifier
